@@ -63,10 +63,10 @@ type Avail struct {
 	// CallPaths records, per call and path index, the representative value of that path right after the call
 	CallPaths map[ssa.CallInstruction][]ssa.Value
 	synth     map[string]*synthLoad
-	p        *Program
-	mods     map[*ssa.Function]map[*types.Var]bool // transitive field mod-sets of in-repo functions
-	escaping map[*types.Var]bool                   // fields whose address escapes somewhere in the repo
-	keyInfo  map[string]memKey
+	p         *Program
+	mods      map[*ssa.Function]map[*types.Var]bool // transitive field mod-sets of in-repo functions
+	escaping  map[*types.Var]bool                   // fields whose address escapes somewhere in the repo
+	keyInfo   map[string]memKey
 }
 
 func NewAvail(p *Program) *Avail {
